@@ -443,8 +443,11 @@ def gen_cfg_cmd(rng, kind, family, tmp, idx):
         return {"programIFR": {"address": _num(rng, a), "value": _num(rng, v)}}, ["ifr", str(a), hexs(_min_le(v))]
     if kind == "copy":
         ln, dst, mf, mt = u(), u(), rng.choice([0, 1, rnd_u32(rng)]), rng.choice([0, 1, rnd_u32(rng)])
-        return ({"copy": {"addressFrom": _num(rng, a), "memoryIdFrom": _num(rng, mf), "size": _num(rng, ln), "addressTo": _num(rng, dst),
-                          "memoryIdTo": _num(rng, mt)}}, ["copy", str(a), str(ln), str(dst), str(mf), str(mt)])
+        item = {"addressFrom": _num(rng, a), "memoryIdFrom": _num(rng, mf), "size": _num(rng, ln), "addressTo": _num(rng, dst), "memoryIdTo": _num(rng, mt)}
+        for k, v in (("memoryIdFrom", mf), ("memoryIdTo", mt)):
+            if v == 0 and rng.random() < 0.5:
+                del item[k]  # optional: defaults to 0
+        return {"copy": item}, ["copy", str(a), str(ln), str(dst), str(mf), str(mt)]
     if kind == "keyblob":
         data = rng.randbytes(rng.choice([16, 32, 48, 5]))
         wname = rng.choice(["NXP_CUST_KEK_INT_SK", "NXP_CUST_KEK_EXT_SK"])
@@ -457,7 +460,7 @@ def gen_cfg_cmd(rng, kind, family, tmp, idx):
             item["plainInput"] = rng.choice(["bin", "no"])
         return {"loadKeyBlob": item}, ["keyblob", str(off), str(KEY_WRAP[CFG_FAMILIES[family]][wname]), hexs(data)]
     if kind == "cfgmem":
-        return {"configureMemory": {"configAddress": _num(rng, a), "memoryId": _num(rng, m)}}, ["cfgmem", str(a), str(m)]
+        return {"configureMemory": {"configAddress": _num(rng, a), **({} if m == 0 and rng.random() < 0.5 else {"memoryId": _num(rng, m)})}}, ["cfgmem", str(a), str(m)]
     if kind == "fill":
         ln, pat = u(), u()
         return {"fillMemory": {"address": _num(rng, a), "size": _num(rng, ln), "pattern": _num(rng, pat)}}, ["fill", str(a), str(ln), str(pat)]
@@ -583,7 +586,7 @@ def run(ck, only=None):
               "the certificate block is an opaque input of the export model (its construction is property C03); the ROM model parses it and the harness verifies its signatures",
               "signatures are abstract in the theorems (CryptoLaws.verify_sign); the native ROM model emits them as obligations discharged with `cryptography`",
               "`cert_block.expected_size` equals the exported certificate block length (checked on every generated container)",
-              "PROGRAM_FUSES data is a whole number of 32-bit words (CmdProgFuses stores len//4); other lengths are outside the property's domain and only compared with the model")
+              "PROGRAM_FUSES data that is not a whole number of 32-bit words is refused by the constructor (modelled: newCmd; theorem constructed_cmd_in_domain)")
 
     if only is not None:
         s = ck.stream("replay", "replayed history")
@@ -638,8 +641,6 @@ def run(ck, only=None):
     for t in bad:
         so.note(t, cls=t[0])
         res = pyres(lambda: mk_cmd(t).export())
-        if t[0] == "fuses" and int(t[1]) <= U32 and res[0] == "E:spsdk":
-            continue  # partial fuse words refused outright (proposed_fixes/C05-3.diff): outside the model's domain, nothing to compare
         if drv is not None:
             so.compare(t, "ok:" + res[1].hex() if res[0] == "ok" else res[0], drv.ask("enc " + " ".join(t)),
                        "out-of-range command: implementation and model disagree")
@@ -742,9 +743,9 @@ def run(ck, only=None):
         sg.note(spec, cls=f"{'cli' if cli else 'api'}/{family}/{kinds[0]}")
         run_config_case(ck, drv, sg, spec)
     # ---------------- 5. edges of the domain
-    se = ck.stream("domain_edges", "PROGRAM_FUSES data that is not a whole number of words (API): the command must be refused (SPSDKError) or decode "
-                   "to the data supplied [open finding C05-fuses-partial-word]; schema-valid configurations that leave out the optional memory ids of "
-                   "copy / configureMemory must load with memory id 0 [open finding C05-cfg-optional-memid]; timestamp 0 (= now) containers are "
+    se = ck.stream("domain_edges", "PROGRAM_FUSES data that is not a whole number of words (API): refused with SPSDKError by implementation and model (or else must decode "
+                   "to the data supplied); schema-valid configurations that leave out the optional memory ids of "
+                   "copy / configureMemory must load with memory id 0; timestamp 0 (= now) containers are "
                    "consistent (also sampled in `histories`); non-trivial = distinct case")
     for n in (1, 2, 3, 5, 6, 7, 17, 18, 19, 21):
         spec = gen_spec(rng, ops=[])
@@ -756,15 +757,16 @@ def run(ck, only=None):
             continue
         sb = built[1][0]
         r = pyres(lambda: (sb.sb_commands.add_command(mk_cmd(t)), sb.sb_commands.add_command(mk_cmd(tail))))
+        se.compare((spec, t), r[0], drv.ask("enc " + " ".join(t))[:7], "constructor of PROGRAM_FUSES with a partial word: implementation vs model")
         if r[0] == "E:spsdk":
-            continue  # refused: fine
+            continue  # refused: nothing is built
         res = pyres(sb.export)
         if not se.expect(res[0] == "ok", (spec, t), "export raises for PROGRAM_FUSES data that was accepted by the constructor", res):
             continue
         rom = parse_rom(drv.ask(rom_line(dict(spec, ts=int(sb.timestamp)), res[1])))
         se.expect(rom is not None and rom["cmds"] == [" ".join(t), " ".join(tail)], (spec, t),
-                  "PROGRAM_FUSES data that is not a whole number of 32-bit words decodes to other commands than supplied",
-                  None if rom is None else rom["cmds"], [" ".join(t), " ".join(tail)], finding="C05-fuses-partial-word")
+                  "PROGRAM_FUSES data that is not a whole number of 32-bit words is accepted and decodes to other commands than supplied",
+                  None if rom is None else rom["cmds"], [" ".join(t), " ".join(tail)])
     for n in range(ck.budget(4, 24)):
         family = rng.choice(sorted(CFG_FAMILIES))
         spec = gen_spec(rng, ops=[["export"]])
@@ -781,7 +783,7 @@ def run(ck, only=None):
                 else:
                     it["configureMemory"].pop("memoryId")
                     exp[2] = "0"
-            spec.update(cfg=dict(cfg, containerOutputFile="out.sb3"), cfg_expected=expected, cfg_cli=n % 2 == 0, cfg_finding="C05-cfg-optional-memid",
+            spec.update(cfg=dict(cfg, containerOutputFile="out.sb3"), cfg_expected=expected, cfg_cli=n % 2 == 0,
                         cfg_files={f.name: f.read_bytes().hex() for f in sorted(tmp.iterdir()) if f.is_file()})
         finally:
             shutil.rmtree(tmp, ignore_errors=True)
